@@ -1364,7 +1364,10 @@ func (r *Restore) Peering(p *pbpeering.Peering) error {
 		return fmt.Errorf("failed restoring peering: %w", err)
 	}
 
-	if err := updatePeeringTableIndexes(r.tx, p.ModifyIndex, p.PartitionOrDefault()); err != nil {
+	// The index table is restored before the peerings, so merge by maximum: a plain
+	// overwrite would leave the table index at the ModifyIndex of whichever peering
+	// happens to be restored last.
+	if err := indexUpdateMaxTxn(r.tx, p.ModifyIndex, tablePeering); err != nil {
 		return err
 	}
 
@@ -1375,7 +1378,7 @@ func (r *Restore) PeeringTrustBundle(ptb *pbpeering.PeeringTrustBundle) error {
 	if err := r.tx.Insert(tablePeeringTrustBundles, ptb); err != nil {
 		return fmt.Errorf("failed restoring peering trust bundle: %w", err)
 	}
-	if err := updatePeeringTrustBundlesTableIndexes(r.tx, ptb.ModifyIndex, ptb.PartitionOrDefault()); err != nil {
+	if err := indexUpdateMaxTxn(r.tx, ptb.ModifyIndex, tablePeeringTrustBundles); err != nil {
 		return err
 	}
 	return nil
